@@ -25,6 +25,7 @@ ASSUMPTIONS = [
 ]
 TRUSTED = ["stdlib dataclasses (construction, replace, fields)"]
 EXHAUSTIVE = {"quick": False, "thorough": False}
+THOROUGH_ROUNDS = 6   # thorough tier: this many generator passes with derived PRNG states (vcheck)
 
 RESERVED = ("obj", "changes_dict")
 KW = "__key__"
